@@ -77,10 +77,27 @@ func coResume(L *LState) int {
 	} else {
 		nargs := L.GetTop() - 1
 		L.XMoveTo(th, nargs)
+		th.adjustResumedValues(nargs)
 	}
 	top := L.GetTop()
 	threadRun(th)
 	return L.GetTop() - top
+}
+
+// adjustResumedValues pads with nil or truncates the n values just handed to a suspended thread
+// to the number of results its pending yield call asks for (the C operand of that OP_CALL).
+func (th *LState) adjustResumedValues(n int) {
+	cf := th.currentFrame
+	if cf == nil || cf.Fn.IsG || cf.Pc == 0 {
+		return
+	}
+	inst := cf.Fn.Proto.Code[cf.Pc-1]
+	if opGetOpCode(inst) != OP_CALL {
+		return
+	}
+	if nret := opGetArgC(inst) - 1; nret >= 0 && nret != n {
+		th.reg.SetTop(th.reg.Top() - n + nret)
+	}
 }
 
 func coRunning(L *LState) int {
